@@ -135,6 +135,12 @@ def _mat(t):
   return [[float(v) for v in row] for row in t.numpy()]
 
 
+def coq_lin_cfg(d):
+  return "(mkLin %s %s %s %s %s %s)" % (
+      czl(d["monos"]), cnatpairs(d["mdom"]), cnatpairs(d["rdom"]),
+      clist([copt(v) for v in d["lo"]]), clist([copt(v) for v in d["hi"]]), cnat(d["norm"] or 0))
+
+
 def eval_cases(ctx, descs):
   tf, tfl = tfimpl.tfl()
   cases = []
@@ -186,9 +192,7 @@ def eval_cases(ctx, descs):
                 fail = "unit %d has norm %r (order %d), neither 1 nor numerically zero" % (u, nrm, d["norm"])
           if fail is None and np.abs(np.array(again) - R).max() > 1e-9 * max(1, abs(R).max()):
             fail = "a feasible result is moved by projecting again (max change %r)" % np.abs(np.array(again) - R).max()
-      cfg = "(mkLin %s %s %s %s %s %s)" % (
-          czl(d["monos"]), cnatpairs(d["mdom"]), cnatpairs(d["rdom"]),
-          clist([copt(v) for v in d["lo"]]), clist([copt(v) for v in d["hi"]]), cnat(d["norm"] or 0))
+      cfg = coq_lin_cfg(d)
       coq = "CLin %s %s %s %s" % (cfg, cnat(d["units"]), cqm(d["W"]), copt(out, cqm) if exc is None else "None")
       klass = "lin_%s%s%s_%s" % ("m" if d["mdom"] else "", "r" if d["rdom"] else "",
                                   "n%d" % d["norm"] if d["norm"] else "", d["wclass"])
